@@ -51,7 +51,7 @@ OutMarks(r) == ErrMarks(r)
 Verdict(r) ==
     IF r.traceback THEN "terminated_by_unhandled_exception"
     ELSE IF r.exit = 0 THEN
-        IF r.dev \in {"help", "sub_help"} THEN (IF r.out_nonblank > 0 THEN "ok" ELSE "help_printed_nothing")
+        IF r.dev \in {"help", "sub_help", "raw_help"} THEN (IF r.out_nonblank > 0 THEN "ok" ELSE "help_printed_nothing")
         ELSE IF r.out_nonblank = 0 /\ r.fmt # "latex" THEN "exit_0_without_output"
         ELSE IF ~FormulaOK(r) THEN "exit_0_with_incomplete_or_malformed_formula"
         ELSE IF Len(r.err_marks) > 0 /\ ~Shielded(r.err_marks, ErrMarks(r)) THEN "unshielded_text_on_stderr"
